@@ -88,6 +88,10 @@ func logOf(r *hlib.Rec, f func(l *slog.Logger), input string) *logged {
 func viewsSuite() hlib.Suite {
 	return hlib.Suite{Name: "views/result+progress/all-combinations", Run: func(r *hlib.Rec) {
 		v := views.New()
+		countAlpha := countAlpha
+		if thorough {
+			countAlpha = append(append([]uint64{}, countAlpha...), 3, 99, 12345, 1<<40)
+		}
 		for _, s := range countAlpha {
 			for _, f := range countAlpha {
 				for _, d := range countAlpha {
@@ -306,6 +310,11 @@ func resultSuite() hlib.Suite {
 	}}
 }
 
-func suites(string) []hlib.Suite { return []hlib.Suite{viewsSuite(), resultSuite()} }
+var thorough bool
+
+func suites(tier string) []hlib.Suite {
+	thorough = tier != "quick"
+	return []hlib.Suite{viewsSuite(), resultSuite()}
+}
 
 func main() { hlib.EnumMain("C19", suites) }
